@@ -259,3 +259,66 @@ func VxH13extra() {
 	inClass := vxOr(vxContains(X, "__parent__"), vxHasPrefix(X, "__fsroot__/"))
 	vxAssert(vxOr(inClass, moved), "C13.extra-file-keeps-relative-place")
 }
+
+func vxIsSymStr(s string) bool { return vxIsSym(s) }
+
+// VxH13two: one task with two outputs in two (symbolic) sibling directories, e.g. res/ and
+// res2/: each file is written inside the temp dir into a directory that exists, and ends up
+// at its declared path.
+func VxH13two() {
+	L := vxGet("L")
+	vxTraceMode(true)
+	vxCmdFree(false, false)
+	d1 := vxShape(vxStr("d1", L, vxClassName), ".")
+	d2 := vxShape(vxStr("d2", L, vxClassName), ".")
+	// directory names with at least one non-dot character (so they stay symbolic), not
+	// ending in ".." (that is the class of known finding KF-C13-2)
+	vxAssume(vxAnd(vxIsSymStr(d1), vxIsSymStr(d2)))
+	vxAssume(d1 != d2)
+	P1, P2 := d1+"/a.txt", d2+"/b.txt"
+	vxAssume(!vxHasInnerDotDotSlash(P1) && !vxHasInnerDotDotSlash(P2))
+	wf, p := vxNewProc13("vcmd w:{o:o1} w:{o:o2}")
+	p.SetOutFunc("o1", func(t *Task) string { return P1 })
+	p.SetOutFunc("o2", func(t *Task) string { return P2 })
+	vxTraceStatSeq("00")
+	t := NewTask(wf, p, "p", p.CommandPattern, map[string]*FileIP{}, p.PathFuncs, p.PortInfo,
+		map[string]string{}, map[string]string{}, "", nil, 1)
+	tmp := t.TempDir()
+	vxAssume(vxNot(vxIsSym(tmp)))
+	// successful scenario: no existing outputs (2 stats), both temp files present afterwards
+	vxTraceStatSeq("0011")
+	vxMapOrder("createDirs,anyOutputsExist,ensureAllOutputsExist,finalizePaths")
+	ev0 := vxEvCount()
+	kind := vxRun(func() {
+		go t.Execute()
+		<-t.Done
+	})
+	vxAssert(kind == "returned", "C13.two.execute-completes")
+	vxReach("executed")
+	tmpAbs := vxCwd + "/" + tmp
+	execAt := -1
+	for i := ev0; i < vxEvCount(); i++ {
+		if vxEvOp(i) == "exec" {
+			execAt = i
+		}
+	}
+	vxAssert(execAt >= 0, "C13.two.command-ran")
+	for _, P := range []string{P1, P2} {
+		target := vxResolve(tmpAbs, P) // relative paths inside the working directory keep their shape
+		dirOK := false
+		for i := ev0; i < execAt; i++ {
+			if vxEvOp(i) == "mkdirall" {
+				d := vxResolve(vxCwd, vxEvArg(i, 0))
+				dirOK = vxOr(dirOK, vxOr(d == filepath.Dir(target), vxHasPrefix(d, filepath.Dir(target)+"/")))
+			}
+		}
+		vxAssert(dirOK, "C13.two.tempdir-subdir-created")
+		moved := false
+		for i := execAt; i < vxEvCount(); i++ {
+			if vxEvOp(i) == "rename" {
+				moved = vxOr(moved, vxAnd(vxResolve(vxCwd, vxEvArg(i, 0)) == target, vxResolve(vxCwd, vxEvArg(i, 1)) == vxResolve(vxCwd, P)))
+			}
+		}
+		vxAssert(moved, "C13.two.moved-to-declared-path")
+	}
+}
